@@ -470,12 +470,12 @@ def gen_prior(rng):
 
 def object_cases(doc, rng, n_mut, block, cli=False, finite=True):
     tag = {"block": block, "finite": finite}
-    yield dict(tag, kind="dump", m=doc)
-    yield dict(tag, kind="text", m=doc)
+    yield dict(tag, kind="dump", m=doc, how=rng.choice(HOWS))
+    yield dict(tag, kind="text", m=doc, how=rng.choice(HOWS))
     for fmt in (2, 3):
-        yield dict(tag, kind="attrs", m=doc, fmt=fmt, prior=gen_prior(rng))
+        yield dict(tag, kind="attrs", m=doc, fmt=fmt, prior=gen_prior(rng), how=rng.choice(HOWS))
     if cli and finite:
-        yield dict(tag, kind="cli", m=doc, fmt=rng.choice([2, 3]))
+        yield dict(tag, kind="cli", m=doc, fmt=rng.choice([2, 3]), how=rng.choice(HOWS))
     if not finite:
         return
     yield dict(tag, kind="vobj", m=doc)
@@ -572,11 +572,34 @@ def verdicts(doc) -> dict:
 
 
 # ------------------------------------------------------------------ running the implementation
-def build(doc):
-    """the GeffMetadata object a canonical document denotes; it must dump to exactly that document"""
+HOWS = ["validate", "validate", "kwargs", "assign", "inplace"]
+
+
+def build(doc, how="validate"):
+    """the GeffMetadata object a canonical document denotes; it must dump to exactly that document.  The same object can come into
+    being in several ways: parsed from the document, constructor keywords, a minimal object whose other fields are assigned one by one,
+    or a minimal object whose free-form `extra` dict is filled in place (serialisation must not depend on which fields were 'set')"""
     from geff_spec import GeffMetadata
 
-    m = GeffMetadata.model_validate(to_py(doc))
+    d = to_py(doc)
+    if how == "validate":
+        return GeffMetadata.model_validate(d)
+    if how == "kwargs":
+        return GeffMetadata(**d)
+    req = ("directed", "node_props_metadata", "edge_props_metadata")
+    m = GeffMetadata(**{k: d[k] for k in req})
+    for k, v in d.items():
+        if k in req:
+            continue
+        if k == "extra" and how == "inplace":
+            m.extra.update(v)
+        elif k in ("axes", "display_hints") and "axes" in d and "display_hints" in d:
+            continue  # hints need their axes: assigned together below
+        else:
+            setattr(m, k, v)
+    if "axes" in d and "display_hints" in d:
+        m.axes = d["axes"]
+        m.display_hints = d["display_hints"]
     return m
 
 
@@ -604,7 +627,7 @@ def run_impl(c):
     k = c["kind"]
     if k in ("dump", "text", "attrs", "cli", "vobj"):
         try:
-            m = build(c["m"])
+            m = build(c["m"], c.get("how", "validate"))
             canon = enc(m.model_dump())
         except Exception as e:  # the model no longer accepts / dumps a document of the format as generated here
             return {"build_error": f"{type(e).__name__}: {str(e)[:200]}"}
